@@ -6,23 +6,33 @@
 (*   p2  base in A1; BSD0 with a backward seek b2->r3 in A3                                      *)
 (*   p3  base in A1; an entry flagged as patch that is not a PTCH file in A2                     *)
 (*   p4  base in A4; COPY b4->s2 in A2; a patch whose payload fails its digest in A1             *)
+(*   p5  10 KB files: raw multi-sector base in A1; COPY stored as sector table + compressed       *)
+(*       sectors in A2; BSD0 stored single-unit compressed in A3; BSD0 with backward seek in A4   *)
+(*   n6  multi-sector compressed (A2) / single-unit raw (A4) full files                           *)
+(* Content ids starting with "Br" / "Bt" are ~10 KB random / text.  StdFormat: format version and *)
+(* sector-size shift of each archive (V1..V4 all occur).                                          *)
 (* "lf" is the (listfile), which every archive contains.                                         *)
 EXTENDS PatchChain
 \* (instances bind the constant Cont of PatchChain to StdWorld in their cfg: CONSTANT Cont <- StdWorld)
 
-WorldNames == <<"n1", "n2", "n3", "n4", "n5", "p1", "p2", "p3", "p4", "lf">>
+WorldNames == <<"n1", "n2", "n3", "n4", "n5", "n6", "p1", "p2", "p3", "p4", "p5", "lf">>
 Row(f) == [n \in {WorldNames[i] : i \in 1..Len(WorldNames)} |-> IF n \in DOMAIN f THEN f[n] ELSE NoEntry]
 StdWorld ==
   [A1 |-> Row([n1 |-> Plain("c11"), n2 |-> Plain("c21"), n5 |-> Plain("c51"),
                p1 |-> Plain("b1"), p2 |-> Plain("b2"), p3 |-> Plain("b3"),
-               p4 |-> Patch("s2", "t1", "corrupt"), lf |-> Plain("lfA1")]),
+               p4 |-> Patch("s2", "t1", "corrupt"), p5 |-> Plain("Br5"), lf |-> Plain("lfA1")]),
    A2 |-> Row([n1 |-> Plain("c12"), n3 |-> Plain("c32"),
                p1 |-> Patch("b1", "q2", "copy"), p3 |-> Patch("b3", "u2", "garbage"),
-               p4 |-> Patch("b4", "s2", "copy"), lf |-> Plain("lfA2")]),
+               p4 |-> Patch("b4", "s2", "copy"), p5 |-> PatchS("Br5", "Bt5v2", "copy", "zsect"),
+               n6 |-> Plain("Bt6"), lf |-> Plain("lfA2")]),
    A3 |-> Row([n1 |-> Plain("c13"), n2 |-> Plain("c23"),
-               p1 |-> Patch("q2", "q3", "bsd0"), p2 |-> Patch("b2", "r3", "bsd0neg"), lf |-> Plain("lfA3")]),
+               p1 |-> Patch("q2", "q3", "bsd0"), p2 |-> Patch("b2", "r3", "bsd0neg"),
+               p5 |-> PatchS("Bt5v2", "v53", "bsd0", "zsingle"), lf |-> Plain("lfA3")]),
    A4 |-> Row([n1 |-> Plain("c14"), n5 |-> Plain("c54"),
-               p1 |-> Patch("b1", "q4", "bsd0"), p4 |-> Plain("b4"), lf |-> Plain("lfA4")])]
+               p1 |-> Patch("b1", "q4", "bsd0"), p4 |-> Plain("b4"), p5 |-> Patch("v53", "v54", "bsd0neg"),
+               n6 |-> Plain("Br6"), lf |-> Plain("lfA4")])]
+StdFormat == [A1 |-> [ver |-> 2, shift |-> 3], A2 |-> [ver |-> 3, shift |-> 3],
+              A3 |-> [ver |-> 1, shift |-> 3], A4 |-> [ver |-> 4, shift |-> 5]]
 StdArchives == {"A1", "A2", "A3", "A4"}
 Bogus       == "AX"          \* an archive whose file does not exist
 StdPrios    == {-1, 0, 5}
